@@ -45,6 +45,11 @@ class Part:
         self.quick_shards = quick_shards
 
 
+CATALOGUE = {"inc", "dbl", "neg", "pair", "tsum", "size", "wrap", "add2", "cnt", "is_even", "lt3",
+             "acc_add", "acc_max", "acc_count", "acc_rs", "key_self", "key_mod2", "key_mod3",
+             "leafsum", "leaves", "prov", "vcanon"}
+
+
 class HarnessError(Exception):
     pass
 
@@ -64,6 +69,12 @@ def from_repo(tb):
     for fr in reversed(frames):
         fn = fr.filename
         if fn.startswith(VERIF):
+            # the catalogue functions are total on their documented argument types: an exception
+            # inside one means streamz called it with something else
+            if fn.endswith(os.path.join("harness", "elements.py")) and fr.name in CATALOGUE:
+                continue
+            if fn.endswith(os.path.join("harness", "specs.py")) and fr.name == "g":
+                continue
             return False
         if fn.startswith(os.path.join(REPO, "streamz")):
             return True
